@@ -670,3 +670,27 @@ func gProbeModel(c *lib.Ctx, line string) bool {
 	c.R.ModelCases = saved
 	return err == nil && len(out) == 1 && out[0] != "bad-op"
 }
+
+// gCurCfg returns the configuration token which the translator regenerated from the source on this run
+// (driver op `cur.cfg <name>`, lean/Sftp/Driver/Cur.lean), so that schedules are replayed in the model of the
+// code as it is now. Without a driver (or with an older one) the pinned token is used. A difference between
+// the two is recorded in the evidence notes; whether it matters for the property is decided by the
+// instantiation theorems (Props/*Inst.lean), not here.
+func gCurCfg(c *lib.Ctx, name, pinned string) string {
+	if c.ModelPath == "" {
+		return pinned
+	}
+	saved := c.R.ModelCases
+	out, err := c.Model([]string{"cur.cfg " + name})
+	c.R.ModelCases = saved
+	if err != nil || len(out) != 1 || out[0] == "bad-op" || out[0] == "" {
+		c.R.Note("driver does not serve `cur.cfg %s`: schedules are replayed in the pinned configuration %s", name, pinned)
+		return pinned
+	}
+	if out[0] != pinned {
+		c.R.Note("configuration regenerated from the source for %s is %s (the configuration the harness was written against: %s); schedules are replayed in the regenerated one", name, out[0], pinned)
+	} else {
+		c.R.Note("model configuration for %s taken from the regenerated source facts: %s", name, out[0])
+	}
+	return out[0]
+}
